@@ -324,7 +324,11 @@ var pool = []string{"%{[1]: 2}", "%{{a: 1}: 1}", "%{[1]: 2, 3: 4}", "%{[]: nil}"
 	// typed values made with `new` from a prototype that overrides B
 	"Int.bear({B: m{true}}).new(0)", "Int.bear({B: m{false}}).new(5)", `Str.bear({B: m{true}}).new("")`, `Str.bear({B: m{false}}).new("q")`, "Float.bear({B: m{true}}).new(0.0)", "Float.bear({B: m{false}}).new(1.5)",
 	"Nil.bear({B: m{true}}).new", "Arr.bear({B: m{true}}).new([])", "Arr.bear({B: m{false}}).new([1])", "Map.bear({B: m{true}}).new(%{})", "Int.bear({B: true}).new(0)", "Int.bear({B: m{true}}).bear.new(0)", "true.bear({B: m{false}})", "false.bear({B: m{true}})",
-	"Int.bear({B: m{self == 0}}).new(0)", "Int.bear({B: m{self == 0}}).new(1)"}
+	"Int.bear({B: m{self == 0}}).new(0)", "Int.bear({B: m{self == 0}}).new(1)",
+	// booleans and nil that come out of built-ins and natives (not written as literals), iterators of every built-in kind
+	"JSON.dec(`true`)", "JSON.dec(`false`)", "JSON.dec(`[true, false]`)[0]", "JSON.dec(`[true, false]`)[1]", "JSON.dec(`{\"a\": false}`).a", "JSON.dec(`null`)", "JSON.dec(`0`)", "JSON.dec(`\"\"`)", "JSON.dec(`[]`)",
+	"1 == 1", "1 != 1", "!nil", "!1", "nil.nil?", "[].empty?", "[1].empty?", "1.kindOf?(Int)", "1.kindOf?(Str)", "(1 < 2)", "(2 < 1)", "\"a\".sym?", "[1, 2].has?(1)", "[1, 2].has?(3)", "{a: 1}.has?('a)", "1.try.err?", "1.try.val?", "true.B", "0.B", "true.bear.B",
+	"[1]._iter", "[]._iter", "\"a\"._iter", "\"\"._iter", "(1:2)._iter", "{a: 1}._iter", "%{1: 2}._iter", "3._iter", "[1].withI", "[1, 2].lazyMap {|x| x}", "<{|x| yield x}>.new(1)", "[1]._iter._iter", "Iter"}
 
 // flagPool: values whose B reads the variable `flag` of the scope they were written in (so their truth changes when
 // `flag` is reassigned between two evaluations)
